@@ -252,6 +252,42 @@ theorem getLine_pos (a c : Nat) (rest : List Nat) (n nl : Nat)
   · simp at h; omega
   · split at h <;> simp at h; omega
 
+/-- What the `switch (uudecode->state)` does with one complete line. -/
+inductive StepR
+  | next (ph : Phase) (o : List Nat) (md : Meta)   -- line consumed: new state, bytes appended to `out_buff`
+  | full                                           -- `goto finish`: no room left in `out_buff`, line not consumed
+  | fatal
+  | oob
+  deriving DecidableEq, Repr
+
+/-- The `switch (uudecode->state)` for the complete line `b` (`len` bytes, of which
+`nl` are the terminator); `total` bytes have been produced in this call so far. -/
+def lineStep (ph : Phase) (total len : Nat) (b : List Nat) (nl : Nat) (md : Meta) : StepR :=
+  match ph with
+  | .readUU =>
+    if total + len * 2 > outBuffSize then .full
+    else match uuLine b nl with
+      | .data o => .next .readUU o md
+      | .toPhase p => .next p [] md
+      | .bad => .fatal
+      | .oob => .oob
+  | .uuEnd =>
+    if len - nl = 3 ∧ b.take 3 = [101, 110, 100] then .next .findHead [] md
+    else .fatal
+  | .readB64 =>
+    if total + len * 2 > outBuffSize then .full
+    else match b64Line b nl with
+      | .data o => .next .readB64 o md
+      | .toPhase p => .next p [] md
+      | .bad => .fatal
+      | .oob => .oob
+  | _ =>
+    -- `default: case ST_FIND_HEAD:`
+    if total + len ≥ bidMaxRead then .fatal
+    else
+      let r := headLine b nl md
+      .next r.1 [] r.2
+
 /-- The line loop.  `ravail` is the size of the upstream window of this call,
 `tot0` is `uudecode->total` at entry, `total` the bytes produced so far in this
 call (`out` is assembled on the way back), `rest` is the memory from `d` on and
@@ -272,38 +308,16 @@ def lineLoop (ravail tot0 : Nat) (avail : Nat) (rest : List Nat) (used total : N
         else if total = 0 then .more (rest.take len) ph md       -- consume(ravail); goto read_more
         else .fin (used + len) (rest.take len) ph [] md          -- `used += len; break;`
       else
-        let b := rest.take len
-        let next (ph' : Phase) (o : List Nat) (md' : Meta) : LoopR :=
+        match lineStep ph total len (rest.take len) nl md with
+        | .next ph' o md' =>
           LoopR.cons o (lineLoop ravail tot0 (avail - len) (rest.drop len) (used + len) (total + o.length) ph' md')
-        match ph with
-        | .readUU =>
-          if total + len * 2 > outBuffSize then .fin used [] ph [] md      -- `goto finish`
-          else match uuLine b nl with
-            | .data o => next .readUU o md
-            | .toPhase p => next p [] md
-            | .bad => .fatal
-            | .oob => .oob
-        | .uuEnd =>
-          if len - nl = 3 ∧ b.take 3 = [101, 110, 100] then next .findHead [] md
-          else .fatal
-        | .readB64 =>
-          if total + len * 2 > outBuffSize then .fin used [] ph [] md
-          else match b64Line b nl with
-            | .data o => next .readB64 o md
-            | .toPhase p => next p [] md
-            | .bad => .fatal
-            | .oob => .oob
-        | _ =>
-          -- `default: case ST_FIND_HEAD:`
-          if total + len ≥ bidMaxRead then .fatal
-          else
-            let r := headLine b nl md
-            next r.1 [] r.2
+        | .full => .fin used [] ph [] md
+        | .fatal => .fatal
+        | .oob => .oob
 termination_by avail
 decreasing_by
-  all_goals
-    have hp := getLine_pos a c tl len nl hg
-    omega
+  have hp := getLine_pos a c tl len nl hg
+  omega
 
 inductive CallR
   | fatal
